@@ -330,11 +330,17 @@ pub struct RoDisk<'a> {
     pub wrote: std::cell::Cell<u32>,
     pub reads: std::cell::Cell<u64>,
     pub cap: u64,
+    /// Some(other medium): the device serves that medium instead (medium exchange: the harness clears this and the
+    /// caller reaches for `VolumeManager::device()`)
+    pub alt: std::cell::Cell<Option<&'a Image>>,
+    /// Some(first block): an older state of the same medium is served, in which every directory slot from that
+    /// block on reads as deleted (what another host sharing the card saw before it stored the current entries)
+    pub old_from: std::cell::Cell<Option<u32>>,
 }
 
 impl<'a> RoDisk<'a> {
     pub fn new(image: &'a Image) -> RoDisk<'a> {
-        RoDisk { image, wrote: std::cell::Cell::new(0), reads: std::cell::Cell::new(0), cap: 50_000_000 }
+        RoDisk { image, wrote: std::cell::Cell::new(0), reads: std::cell::Cell::new(0), cap: 50_000_000, alt: std::cell::Cell::new(None), old_from: std::cell::Cell::new(None) }
     }
 }
 
@@ -347,10 +353,20 @@ impl<'a, 'b> BlockDevice for &'b RoDisk<'a> {
             if self.reads.get() > self.cap {
                 std::panic::panic_any(HangMarker);
             }
-            if idx >= self.image.num_blocks {
+            let image = self.alt.get().unwrap_or(self.image);
+            if idx >= image.num_blocks {
                 return Err(DiskError::OutOfRange);
             }
-            blk.contents = self.image.get(idx);
+            blk.contents = image.get(idx);
+            if let Some(from) = self.old_from.get() {
+                if idx >= from {
+                    for s in 0..16 {
+                        if blk.contents[s * 32] != 0 {
+                            blk.contents[s * 32] = 0xE5;
+                        }
+                    }
+                }
+            }
         }
         Ok(())
     }
@@ -359,6 +375,6 @@ impl<'a, 'b> BlockDevice for &'b RoDisk<'a> {
         Err(DiskError::Dead)
     }
     fn num_blocks(&self) -> Result<BlockCount, DiskError> {
-        Ok(BlockCount(self.image.num_blocks))
+        Ok(BlockCount(self.alt.get().unwrap_or(self.image).num_blocks))
     }
 }
